@@ -93,7 +93,7 @@ def P_for(gen_cfg, n_random, design, num):
     }
 
 
-P = P_for("Gen_sim.cfg", (120, 5000), DESIGN, (40, 1500))
+P = P_for("Gen_sim.cfg", (120, 1200), DESIGN, (40, 500))
 
 REPROS = [
     ("F1-early-delete-forgets-belief", "repro_F1_early_delete.json",
@@ -161,7 +161,9 @@ def extra_behaviours(ctx):
     """Behaviours from the other generator configurations (RemoveExternalRoutes off; conntrack cleanup on),
     replayed in the same driver run as the main generator's."""
     paths = []
-    for cfg, num in (("Gen_sim_noext.cfg", (25, 1000)), ("Gen_sim_ct.cfg", (25, 1000))):
+    for cfg, num in (("Gen_sim_noext.cfg", (0, 300)), ("Gen_sim_ct.cfg", (25, 300))):
+        if ctx.quick and not num[0]:
+            continue        # RemoveExternalRoutes = false is covered by the seeded random histories in the quick tier
         sim = {"num": num[0] if ctx.quick else num[1], "depth": 700}
         r = core.tlc(SPECDIR, "Gen_Routes", cfg, workers=1, simulate=sim, seed=ctx.seed, heap="4g",
                      timeout=600 if ctx.quick else 1500)
